@@ -777,3 +777,41 @@ Qed.
 Theorem once : forall id s (ord : order) n, txs s id = Some Committed ->
   run_upto n (tx_commit ord id s) s = (s, RErr) /\ run_upto n (tx_discard ord id s) s = (s, RErr).
 Proof. intros. split; [now apply once_commit | now apply once_discard]. Qed.
+
+(** * Discard is completable from every cut *)
+Lemma del_staged_frame_tx : forall id (m : list (branch * commit)) s,
+  txs (apply_all (map (fun e => WDelStaged id (fst e)) m) s) = txs s.
+Proof. intros id m s. apply (proj2 (del_staged_all id m s)). Qed.
+
+Theorem discard_rerun : forall id s (ord1 ord2 : order) n,
+  txs s id = Some InProgress -> order_ok ord1 (staged s id) ->
+  let s1 := fst (run_upto n (tx_discard ord1 id s) s) in
+  order_ok ord2 (staged s1 id) ->
+  (txs s1 id = Some InProgress /\
+   exists s2, run_full (tx_discard ord2 id s1) s1 = (s2, ROk) /\ staged s2 id = [] /\ txs s2 id = None) \/
+  (txs s1 id = None /\ staged s1 id = [] /\ snd (run_upto n (tx_discard ord1 id s) s) = ROk).
+Proof.
+  intros id s ord1 ord2 n Ht H1 s1 H2.
+  set (dels := map (fun e => WDelStaged id (fst e)) (ord1 (staged s id))).
+  assert (Hp : tx_discard ord1 id s = (dels ++ [WDelTx id], ROk)).
+  { unfold tx_discard. now rewrite Ht. }
+  destruct (Nat.le_gt_cases n (length dels)) as [Hn|Hn].
+  - (* only staged refs deleted so far: still in progress, Discard applies again *)
+    assert (Hs1 : s1 = apply_all (map (fun e => WDelStaged id (fst e)) (firstn n (ord1 (staged s id)))) s).
+    { subst s1. unfold run_upto. rewrite Hp. cbn [fst]. rewrite firstn_app.
+      replace (n - length dels)%nat with 0%nat by lia. cbn [firstn]. rewrite app_nil_r.
+      subst dels. now rewrite firstn_map. }
+    assert (Ht1 : txs s1 id = Some InProgress).
+    { rewrite Hs1, del_staged_frame_tx. exact Ht. }
+    left. split; [assumption|]. now apply discard_complete.
+  - (* every write happened *)
+    right.
+    destruct (discard_complete id s ord1 Ht H1) as [sf [Hr [Hst Htx]]].
+    unfold run_full in Hr. rewrite Hp in Hr. cbn [fst snd] in Hr. inversion Hr as [Hsf].
+    assert (Hs1 : s1 = apply_all (dels ++ [WDelTx id]) s).
+    { subst s1. unfold run_upto. rewrite Hp. cbn [fst]. f_equal. apply firstn_all2.
+      rewrite app_length. cbn. lia. }
+    rewrite Hs1, Hsf. split; [assumption|]. split; [assumption|].
+    unfold run_upto. rewrite Hp. cbn [fst snd]. rewrite app_length. cbn [length].
+    assert (E : (n <? length dels + 1)%nat = false) by (apply Nat.ltb_ge; lia). now rewrite E.
+Qed.
